@@ -354,6 +354,72 @@ def h_coupled_levels(ctx, n, coef, levels):
         ctx.prove("C16.levels.one_path_manager_per_level", len(pms) == level + 1, info=info, replay=rp)
 
 
+def replay_rate_coefficients(sc):
+    """real coefficient functions of the two rate models, tenors given as a list (as the model constructors pass them) and as an array,
+    for times before and after the first tenors"""
+    out = []
+    sig = np.array([[0.1], [0.2]])
+    x = np.array([[0.02], [0.03]])
+    for name, cls in (("ForwardMarketSDEFunction", LSDE.ForwardMarketSDEFunction), ("LiborSDEFunction", LSDE.LiborSDEFunction)):
+        if sc.get("which") and sc["which"] != name:
+            continue
+        for tenors in ([1.0, 2.0, 3.0], np.array([1.0, 2.0, 3.0])):
+            a = cls(sigma=sig.copy(), tenors=tenors)
+            for t in (0.5, 1.0, 1.2, 2.5):
+                try:
+                    v = np.asarray(a(t, x), dtype=float)
+                except Exception as e:
+                    out.append(f"{name}(tenors as {type(tenors).__name__})(t={t}) raises {type(e).__name__}: {str(e)[:70]}")
+                    continue
+                T = np.asarray(tenors, dtype=float)
+                if name == "LiborSDEFunction":
+                    want = np.array([[sig[i, 0] * x[i, 0] if t < T[i] else 0.0] for i in range(2)])
+                else:
+                    want = np.array([[sig[i, 0] * x[i, 0] * (1.0 if t < T[0] else min(1.0, max(0.0, T[i + 1] - t) / (T[i + 1] - T[i])))] for i in range(2)])
+                if v.shape != want.shape or not np.allclose(v, want, atol=1e-14):
+                    out.append(f"{name}(tenors as {type(tenors).__name__})(t={t}) = {v.tolist()} instead of {want.tolist()}")
+    return bool(out), "; ".join(out[:3])
+
+
+def h_rate_coefficients(ctx, which, m=2):
+    """the coefficient functions a(t, x) of the two rate models on the whole horizon [0, T_m): defined, of shape (m, 1), and equal to
+    what their docstrings say (Libor: row i is sigma_i x_i before T_i and 0 from T_i on; forward market: sigma_i x_i before T_0, then
+    scaled by min(1, max(0, T_{i+1} - t) / (T_{i+1} - T_i)))"""
+    cls = LSDE.ForwardMarketSDEFunction if which == "ForwardMarketSDEFunction" else LSDE.LiborSDEFunction
+    tenors = []
+    prev = 0.0
+    for i in range(m + 1):
+        T = ctx.real(f"T{i}")
+        ctx.assume(T > prev)
+        prev = T
+        tenors.append(T)
+    sig = np.array([[ctx.real(f"sigma{i}")] for i in range(m)], dtype=object)
+    x = np.array([[ctx.real(f"x{i}")] for i in range(m)], dtype=object)
+    t = ctx.real("t", 0)
+    ctx.assume(t < tenors[m])
+    a = cls(sigma=sig.copy(), tenors=list(tenors))  # the model constructors hand the tenors over as given (a list in the factories)
+    rp = (replay_rate_coefficients, lambda mm: {"which": which})
+    info = {"function": which, "m": m}
+    try:
+        v = a(t, x)
+    except (TypeError, ValueError, IndexError) as e:
+        ctx.prove("C16.rate_coefficient_is_defined_on_the_whole_horizon", False, info=dict(info, raised=f"{type(e).__name__}: {str(e)[:80]}"), replay=rp)
+        return
+    ok = np.shape(v) == (m, 1)
+    ctx.prove("C16.rate_coefficient_is_defined_on_the_whole_horizon", ok, info=dict(info, shape=str(np.shape(v))), replay=rp)
+    if not ok:
+        return
+    conds = []
+    for i in range(m):
+        if which == "LiborSDEFunction":
+            want = V.ite(t < tenors[i], sig[i, 0] * x[i, 0], 0.0)
+        else:
+            ratio = V.smin(1.0, V.smax(0.0, tenors[i + 1] - t) / (tenors[i + 1] - tenors[i]))
+            want = V.ite(t < tenors[0], sig[i, 0] * x[i, 0], sig[i, 0] * x[i, 0] * ratio)
+        conds.append(EQ(v[i, 0], want))
+    ctx.prove("C16.rate_coefficient_follows_its_documented_shape_in_time", AND(*conds), info=info, replay=rp)
+
+
 # ---- discount factors
 
 
@@ -483,6 +549,8 @@ def harnesses(tier):
             hs.append(Harness(f"df.{which}.{m}", h_df_rates, {"which": which, "m": m}, max_paths=6000, batch=20))
     for coef in (("constant",) if q else ("constant", "diag", "affine")):
         hs.append(Harness(f"coupled.levels.{coef}", h_coupled_levels, {"n": 1 if q else 2, "coef": coef, "levels": 2 if q else 3}, max_paths=2000))
+    for which in ("ForwardMarketSDEFunction", "LiborSDEFunction"):
+        hs.append(Harness(f"ratecoef.{which}", h_rate_coefficients, {"which": which}, max_paths=2000))
     hs.append(Harness("df.simple", h_df_simple, max_paths=200))
     hs.append(Harness("twin", h_twin, twin="must_fail"))
     return hs
